@@ -8,10 +8,11 @@ git -C /repo diff --quiet || { echo "/repo has uncommitted changes"; exit 2; }
 git -C /repo apply "$PWD/$d/patch.diff" || { echo "patch does not apply"; exit 2; }
 : > "$d/detection.txt"
 for c in $checks; do
-  out=$(./check $c --tier quick 2>&1)
+  out=$(VERIF_EVIDENCE_SUFFIX=.seeded ./check $c --tier quick 2>&1)
   code=$?
   tags=$(echo "$out" | grep -oE "oracle=[^ ]+" | sort -u | tr '\n' ' ')
   echo "$c exit=$code $tags" | tee -a "$d/detection.txt"
 done
 git -C /repo checkout -- .
+rm -f /verif/evidence/*.seeded.json /verif/evidence/*.seeded.release-profile.json
 ./check build >/dev/null
